@@ -356,6 +356,7 @@ def run(ctx):
             from .. import extra_oracles3
             extra_oracles3.gm_fit_ambient(ctx)
             extra_oracles3.gm_class_state(ctx)
+            extra_oracles3.gm_fit_container(ctx)
         except Exception as ex:       # the oracle itself must never hide the result of the check proper
             ctx.obligation('oracle:extra:raised', False, 'correspondence', repr(ex))
             ctx.violation('oracle:extra:raised:' + type(ex).__name__, 'shared-configuration oracle raised ' + repr(ex), {'repro': '# see tools/vf/extra_oracles2.py'})
